@@ -39,3 +39,249 @@ def lemma_base_library(ctx):
     obls.append(("closed: the complement of a DNA residue name is a DNA residue name", [is_key], z3.Or(*[comp(x) == S(k) for k in keys])))
     obls.append(("no fixed point", [is_key], comp(x) != x))
     return obls
+
+
+# =====================================================================================================================================
+# complement_dsDNA under contract.  Residue names are names that are only compared: values of the opaque Node sort, the strings of
+# BASE_LIBRARY interned as constants of that sort (pyvc.ops.intern_name; different strings are different constants).
+from pyvc.types import (TInt, TBool, TNode, TObj, TTuple, TList, TDict, TDefaultDict, TRec, TGraph, key_term, slist_get)   # noqa: E402
+from pyvc.contract import Contract, Registry, Loop      # noqa: E402
+from pyvc import ops        # noqa: E402
+
+REG = Registry()
+RATTR = TRec("nodeattrs", resname=TNode, resid=TInt, build=TBool, backmap=TBool)
+EATTR = TDict(TNode, TObj)                                 # attribute dictionary of one edge (attribute name -> value)
+EKEY = TTuple(TInt, TInt)
+STRAND = TGraph(RATTR, key=TInt, cls="polyply.src.meta_molecule:MetaMolecule", ordered=True, max_resid=TInt, eattr=TDefaultDict(EKEY, EATTR))
+i_, j_, t_ = z3.Int("i_"), z3.Int("j_"), z3.Int("t_")
+a_ = z3.Const("a_", TNode.sort)
+
+
+def comp(x):
+    """the pairing table of the real source as a term over interned names (a name outside the table maps to itself: never used, the
+    lookups raise there)"""
+    table, _src = read_table()
+    out = x
+    for k, v in table.items():
+        out = z3.If(x == ops.intern_name(k), ops.intern_name(v), out)
+    return out
+
+
+def known(x):
+    table, _src = read_table()
+    return z3.Or(*[x == ops.intern_name(k) for k in table])
+
+
+def nattrs(g, i):
+    nd = g.fields["nodes"]
+    return nd.v.unflat([c[i] for c in nd.comps])
+
+
+def adj(g, a, b):
+    s = g.fields["adj"]
+    return z3.Select(s.dom, key_term(s.k, (a, b)))
+
+
+def eattr(g, lo, hi):
+    """attribute dictionary of the edge {lo, hi}, lo <= hi (the key networkx' one dictionary per undirected edge is modelled under)"""
+    ea = g.fields["eattr"]
+    k = key_term(ea.k, (lo, hi))
+    return ea.v.unflat([c[k] for c in ea.comps])
+
+
+def same_dict(d1, d2):
+    va, vb = d1.comps[0][a_], d2.comps[0][a_]
+    return z3.ForAll([a_], z3.And(z3.Select(d1.dom, a_) == z3.Select(d2.dom, a_), z3.Implies(z3.Select(d1.dom, a_), va == vb)))
+
+
+def strand_edges(g, n, circular, i, j):
+    """the bonds of a strand of n nucleotides on the nodes 0..n-1 (a circular one is closed by the bond n-1 -- 0)"""
+    return z3.And(0 <= i, i < n, 0 <= j, j < n, z3.Or(j == i + 1, i == j + 1, z3.And(circular, n >= 3, z3.Or(z3.And(i == 0, j == n - 1), z3.And(j == 0, i == n - 1)))))
+
+
+def strand(g, n, circular):
+    """a single strand as the sequence readers build it: nodes 0..n-1 inserted in that order, residue ids 1..n, consecutive bonds"""
+    nd = g.fields["nodes"]
+    at = nattrs(g, i_)
+    return z3.And(n >= 1, z3.Implies(circular, n >= 3), g.fields["max_resid"] == n,
+                  z3.ForAll([i_], z3.Select(nd.dom, i_) == z3.And(0 <= i_, i_ < n)),
+                  nd.order.n == n, z3.ForAll([i_], z3.Implies(z3.And(0 <= i_, i_ < n), nd.order.comps[0][i_] == i_)),
+                  z3.ForAll([i_], z3.Implies(z3.And(0 <= i_, i_ < n), at.fields["resid"] == i_ + 1)),
+                  z3.ForAll([i_, j_], adj(g, i_, j_) == strand_edges(g, n, circular, i_, j_)))
+
+
+def old_part_kept(g, g0, n):
+    """the original strand is unchanged: its nodes, their attributes, the bonds among them and their labels; no bond joins the two strands"""
+    ea, ea0 = g.fields["eattr"], g0.fields["eattr"]
+    p = z3.Const("p_", ea.dom.sort().domain())
+    hi = key_untuple_snd(ea.k, p)
+    return z3.And(z3.ForAll([i_], z3.Implies(z3.And(0 <= i_, i_ < n), z3.And(z3.Select(g.fields["nodes"].dom, i_), RATTR.eq(nattrs(g, i_), nattrs(g0, i_))))),
+                  z3.ForAll([i_, j_], z3.Implies(z3.And(0 <= i_, i_ < n), z3.And(adj(g, i_, j_) == adj(g0, i_, j_), adj(g, j_, i_) == adj(g0, j_, i_)))),
+                  z3.ForAll([p], z3.Implies(hi < n, z3.And(*[c[p] == c0[p] for c, c0 in zip(ea.comps, ea0.comps)]))))
+
+
+def key_untuple_snd(kt, p):
+    from pyvc.types import key_untuple
+    return key_untuple(kt, p)[1]
+
+
+def complement_upto(g, g0, n, m, closed, lab_m=None, lab_closed=None):
+    """the second strand so far: nodes n..n+m (m+1 of them), node i pairs with node 2n-1-i; bonds i -- i+1 carrying the labels of the bond
+    2n-2-i -- 2n-1-i; `closed`: the bond that closes a circular complement is there, with the labels of the closing bond of the original"""
+    nd = g.fields["nodes"]
+    at = nattrs(g, i_)
+    lab_m = m if lab_m is None else lab_m
+    lab_closed = closed if lab_closed is None else lab_closed
+    return z3.And(
+        z3.ForAll([i_], z3.Select(nd.dom, i_) == z3.And(0 <= i_, i_ <= n + m)),
+        nd.order.n == n + m + 1, z3.ForAll([i_], z3.Implies(z3.And(0 <= i_, i_ <= n + m), nd.order.comps[0][i_] == i_)),
+        g.fields["max_resid"] == n + m + 1,
+        z3.ForAll([i_], z3.Implies(z3.And(n <= i_, i_ <= n + m), z3.And(
+            at.fields["resname"] == comp(nattrs(g0, 2 * n - 1 - i_).fields["resname"]), at.fields["resid"] == i_ + 1, at.fields["build"], at.fields["backmap"]))),
+        z3.ForAll([i_, j_], z3.Implies(z3.And(n <= i_, n <= j_), adj(g, i_, j_) == z3.And(i_ <= n + m, j_ <= n + m, z3.Or(
+            j_ == i_ + 1, i_ == j_ + 1, z3.And(closed, z3.Or(z3.And(i_ == n, j_ == 2 * n - 1), z3.And(j_ == n, i_ == 2 * n - 1))))))),
+        z3.ForAll([i_], z3.Implies(z3.And(n <= i_, i_ < n + lab_m), same_dict(eattr(g, i_, i_ + 1), eattr(g0, 2 * n - 2 - i_, 2 * n - 1 - i_)))),
+        z3.Implies(lab_closed, same_dict(eattr(g, n, 2 * n - 1), eattr(g0, 0, n - 1))))
+
+
+def chain_edges(Y, n, circular):
+    """the edges the traversal yields from the 3' end: (n-1, n-2), ..., (1, 0), and for a circular strand finally (0, n-1)"""
+    e = slist_get(Y, i_)
+    back = z3.Or(circular, n == 2)      # two nucleotides: the traversal takes the only bond for a closing bond and yields it again, reversed
+    return z3.And(Y.n == z3.If(back, n, n - 1),
+                  z3.ForAll([i_], z3.Implies(z3.And(0 <= i_, i_ < n - 1), z3.And(e[0] == n - 1 - i_, e[1] == n - 2 - i_))),
+                  z3.Implies(back, z3.And(slist_get(Y, n - 1)[0] == 0, slist_get(Y, n - 1)[1] == n - 1)))
+
+
+def strand_part(g, n, circular):
+    """the nodes 0..n-1 of g form the strand (other nodes may exist; none of them is bonded to the strand)"""
+    nd = g.fields["nodes"]
+    at = nattrs(g, i_)
+    return z3.And(n >= 1, z3.Implies(circular, n >= 3),
+                  z3.ForAll([i_], z3.Implies(z3.And(0 <= i_, i_ < n), z3.And(z3.Select(nd.dom, i_), at.fields["resid"] == i_ + 1))),
+                  z3.ForAll([i_, j_], z3.Implies(z3.And(0 <= i_, i_ < n), z3.And(adj(g, i_, j_) == strand_edges(g, n, circular, i_, j_),
+                                                                                adj(g, j_, i_) == strand_edges(g, n, circular, j_, i_)))))
+
+
+CIRC = z3.Bool("strand_is_circular")      # ghost parameter of the specification: whether the input strand is circular
+N0 = z3.Int("strand_length")              # ghost: number of nucleotides of the input strand
+
+EDGE_ITER = REG.add(Contract(
+    "polyply.src.gen_dna:_dna_edge_iterator", params=dict(meta_molecule=STRAND, source=TInt), result=TList(TTuple(TInt, TInt)),
+    requires={"the nodes below the source form a strand whose 3' end is the source": "strand_part(meta_molecule, source + 1, CIRC)"},
+    ensures={"the bonds of the strand from the 3' end down, then the closing bond of a circular strand": "chain_edges(result, source + 1, CIRC)"},
+    spec_fns=dict(strand_part=strand_part, chain_edges=chain_edges, CIRC=CIRC), trusted=True, props=("C19",),
+    note="ASSUMED (generator consumed lazily while the caller adds nodes; depends on the neighbour order of networkx): the traversal of a strand "
+         "built in sequence order; bounded unit c19-dsdna runs the real generator"))
+
+
+def this_bond(prev, nxt, n, k):
+    """the k-th bond of the traversal from the 3' end: n-1-k -- n-2-k, and the closing bond 0 -- n-1 last"""
+    return z3.If(k < n - 1, z3.And(prev == n - 1 - k, nxt == n - 2 - k), z3.And(k == n - 1, prev == 0, nxt == n - 1))
+
+
+def stage_m(k, n):
+    return z3.If(k <= n - 1, k, n - 1)
+
+
+def corr_ok(corr, n, m):
+    """the correspondence table: node n-1-t of the original pairs with node n+t of the complement, for the t reached so far"""
+    return z3.ForAll([i_], z3.And(z3.Select(corr.dom, i_) == z3.And(n - 1 - m <= i_, i_ <= n - 1),
+                                  z3.Implies(z3.Select(corr.dom, i_), corr.comps[0][i_] == 2 * n - 1 - i_)))
+
+
+def outer_inv(g, g0, n, k):
+    return z3.And(old_part_kept(g, g0, n), complement_upto(g, g0, n, stage_m(k, n), k == n))
+
+
+def inner_inv(g, g0, n, k):
+    return z3.And(old_part_kept(g, g0, n), complement_upto(g, g0, n, stage_m(k + 1, n), k + 1 == n, stage_m(k, n), z3.BoolVal(False)))
+
+
+def copied_so_far(g, g0, prev, nxt, a, b, pos, j):
+    """the labels of the bond prev -- nxt visited so far are on the bond a -- b of the complement, which carries no other label (for a
+    strand of two nucleotides the bond is visited twice: the second visit finds the labels in place)"""
+    lo0, hi0 = z3.If(prev <= nxt, prev, nxt), z3.If(prev <= nxt, nxt, prev)
+    lo, hi = z3.If(a <= b, a, b), z3.If(a <= b, b, a)
+    e1, e2 = eattr(g0, lo0, hi0), eattr(g, lo, hi)
+    return z3.ForAll([a_], z3.And(z3.Implies(z3.And(z3.Select(e1.dom, a_), pos(a_) < j), z3.Select(e2.dom, a_)),
+                                  z3.Implies(z3.Select(e2.dom, a_), z3.And(z3.Select(e1.dom, a_), e2.comps[0][a_] == e1.comps[0][a_]))))
+
+
+COMPLEMENT = REG.add(Contract(
+    "polyply.src.gen_dna:complement_dsDNA", params=dict(meta_molecule=STRAND), result=STRAND,
+    requires={"a single strand of n >= 1 nucleotides as the sequence readers build it (nodes 0..n-1 in order, residue ids 1..n, consecutive bonds, "
+              "closed by the bond n-1 -- 0 when circular)": "strand(meta_molecule, N0, CIRC)"},
+    raises_when={"KeyError": "not known(meta_molecule.nodes[last_node].resname)",
+                 "OSError": "not known(meta_molecule.nodes[next_node].resname)"},
+    modifies=["meta_molecule"],
+    ensures={"the original strand is unchanged and no bond joins the two strands": "old_part_kept(meta_molecule, old(meta_molecule), N0)",
+             "2n residues: residue n+k is the complement of residue n+1-k, numbered n+k, bonded in that order with the bond labels copied; "
+             "a circular strand gives a circular complement": "complement_upto(meta_molecule, old(meta_molecule), N0, N0 - 1, CIRC)",
+             "the molecule is returned": "same_graph(result, meta_molecule)"},
+    locals={"correspondance": TDict(TInt, TInt)},
+    loops={0: Loop({"strands so far": "outer_inv(meta_molecule, old(meta_molecule), N0, k)",
+                    "correspondence": "corr_ok(correspondance, N0, stage_m(k, N0))",
+                    "counters": "total == N0 + k and last_node == N0 - 1"}),
+           1: Loop({"strands so far, current bond pending": "inner_inv(meta_molecule, old(meta_molecule), N0, k)",
+                    "correspondence": "corr_ok(correspondance, N0, stage_m(k + 1, N0))",
+                    "counters": "total == N0 + k and last_node == N0 - 1 and 0 <= k and k < len(_seq0)",
+                    "this bond": "this_bond(prev_node, next_node, N0, k) and new_node == 2 * N0 - 1 - next_node",
+                    "labels copied so far": "copied_so_far(meta_molecule, old(meta_molecule), prev_node, next_node, 2 * N0 - 1 - prev_node, new_node, _pos1, j)"},
+                   index="j")},
+    spec_fns=dict(strand=strand, old_part_kept=old_part_kept, complement_upto=complement_upto, outer_inv=outer_inv, inner_inv=inner_inv,
+                  corr_ok=corr_ok, stage_m=stage_m, this_bond=this_bond, copied_so_far=copied_so_far, known=known, N0=N0, CIRC=CIRC,
+                  same_graph=lambda a, b: STRAND.eq(a, b)),
+    inline_callees=("polyply.src.meta_molecule:MetaMolecule.add_monomer", "polyply.src.meta_molecule:MetaMolecule.add_node"),
+    deep_wf=True, props=("C19",),
+    note="the edge traversal _dna_edge_iterator is used through its ASSUMED contract; add_monomer / add_node executed at the call site"))
+
+
+def _strand_data(rnd):
+    table, _src = read_table()
+    n = rnd.randint(1, 5)
+    circ = n >= 3 and rnd.random() < 0.4
+    names = sorted(table)
+    for s_ in names:
+        ops.intern_name(s_)
+    pick = lambda: rnd.choice(names) if rnd.random() < 0.95 else "XX"      # noqa: E731
+    nodes = {i: {"resname": pick(), "resid": i + 1, "build": True, "backmap": True} for i in range(n)}
+    pairs = [(i, i + 1) for i in range(n - 1)] + ([(0, n - 1)] if circ else [])
+    eattr = {p: ({"linktype": rnd.choice(["a", "b"])} if rnd.random() < 0.5 else {}) for p in pairs}
+    if circ:
+        eattr[(0, n - 1)]["circle"] = True
+    g = {"nodes": nodes, "adj": {(a, b) for a, b in pairs} | {(b, a) for a, b in pairs}, "max_resid": n, "eattr": eattr}
+    return g, n, circ
+
+
+def _real_strand(d):
+    import networkx as nx
+    from polyply.src.meta_molecule import MetaMolecule
+    g = nx.Graph()
+    for k, a in d["nodes"].items():
+        g.add_node(k, resname=a["resname"], resid=a["resid"])
+    for (a, b), attrs in d["eattr"].items():
+        g.add_edge(a, b, **attrs)
+    return MetaMolecule(g)
+
+
+def _ghosts(n, circ):
+    return {"strand_length": n, "strand_is_circular": circ, "__names__": ["XX", "linktype", "circle"], "__window__": 2 * n + 2}
+
+
+def witness_complement(rnd):
+    g, n, circ = _strand_data(rnd)
+    return {"meta_molecule": g}, _ghosts(n, circ)
+
+
+def witness_iterator(rnd):
+    g, n, circ = _strand_data(rnd)
+    if rnd.random() < 0.5:      # as at the call site: the first node of the second strand is there already
+        g["nodes"][n] = {"resname": "DA", "resid": n + 1, "build": True, "backmap": True}
+        g["max_resid"] = n + 1
+    return {"meta_molecule": g, "source": n - 1}, _ghosts(n, circ)
+
+
+COMPLEMENT.witness, COMPLEMENT.adapt = witness_complement, lambda a: {"meta_molecule": _real_strand(a["meta_molecule"])}
+EDGE_ITER.witness, EDGE_ITER.adapt = witness_iterator, lambda a: {"meta_molecule": _real_strand(a["meta_molecule"]), "source": a["source"]}
+CONTRACTS = [COMPLEMENT]
